@@ -211,6 +211,15 @@ void reb_integrator_init(struct reb_simulation* r){
 		case REB_INTEGRATOR_SEI:
 			reb_integrator_sei_init(r);
 			break;
+		case REB_INTEGRATOR_BS:
+			// The N-body ODE is not stored in binary files. If the number of particles changed since
+			// the last step, update the stored flag now (the next step would do the same).
+			if (r->ri_bs.nbody_ode && r->ri_bs.nbody_ode->length != r->N*3*2){
+				reb_ode_free(r->ri_bs.nbody_ode);
+				r->ri_bs.nbody_ode = NULL;
+				r->ri_bs.first_or_last_step = 1;
+			}
+			break;
 		default:
 			break;
 	}
